@@ -619,10 +619,8 @@ func c15HelperLoop(c *kit.Ctx, a *c15Anchors, r1 *kit.Rule) {
 			}
 		}
 		elem := ""
-		if br.Range.Value != nil {
-			if o := kit.ObjOf(info, br.Range.Value); o != nil {
-				elem = kit.VarID(o)
-			}
+		if o := kit.LoopElemVar(info, br.Range); o != nil {
+			elem = kit.VarID(o)
 		}
 		if elem == "" {
 			m.undec("the loop over the children does not bind the element to a variable")
@@ -915,6 +913,14 @@ func c15R2(c *kit.Ctx, a *c15Anchors, r2 *kit.Rule) {
 
 // c15BodyEntry returns the CFG block that starts the body of a range loop.
 func c15BodyEntry(g *kit.Graph, rs *ast.RangeStmt) *cfg.Block {
+	// a canonical counting loop presented as a range statement: the body of its for statement
+	for _, b := range g.G.Blocks {
+		if b.Live && b.Kind == cfg.KindForBody {
+			if fs, ok := b.Stmt.(*ast.ForStmt); ok && fs.Body == rs.Body {
+				return b
+			}
+		}
+	}
 	for _, b := range g.G.Blocks {
 		if !b.Live || len(b.Succs) != 2 {
 			continue
